@@ -42,7 +42,12 @@ TRUSTED = ['scripted-model subclasses harness/scripted.py + harness/scripted_tra
            'read from the run, what each pass does to the submodel and its Trace is the model\'s']
 ASSUMPTIONS = ['the user\'s _evaluate / solve_t_before / solve_t_after modify variable values only: they do not add, remove or resize series, '
                'do not touch the `trace` entry and do not look at the trace= / reset= keywords they are handed (shape of the model\'s inner oracles)',
-               'names in trace= / TRACE_VARIABLES are model variables or unknown strings (not `status`, `iterations` or the trace entry itself)',
+               'names in trace= / TRACE_VARIABLES are model variables or unknown strings (not `status`, `iterations` or the trace entry itself: the '
+               'code accepts those and records strings / objects — trace=[\'Y\', \'status\'] gives a <U32 snapshot array — the model answers KeyError)',
+               'trace= is None, a bool, one str, a list or a tuple of names (the property\'s quantifier), or a set / generator (not Sequences: the default '
+               'names, mirrored); NOT a NumPy array of names: np.array([\'Y\']) silently traces the default names, np.array([\'Y\', \'C\']) makes '
+               '`if trace:` raise ValueError only when tracing (reproduced; outside the quantifier; candidate repair in /verif/fixes)',
+               'reset=True contents are pinned by K only (the property does not constrain them); the oracle judges reset=False contents',
                't lies inside the span for the twin comparison (outside it trace_t\'s IndexError precedes every check of the base class)',
                'span = list of int labels (list.index lookup); start/end of solve() are labels of the span',
                'reference semantics of Python lists as in TracerNames.v: list(x) allocates a new object, in-place edits change exactly the object edited']
